@@ -17,6 +17,8 @@ RULE = ("each case = one search/address request; name shape (0-3 dots, trailing 
 def own(key):
     if key.startswith("search:"):
         return PROP
+    if key.startswith("addr:"):
+        return "C13"
     return C01.own(key)
 
 
